@@ -10,7 +10,10 @@ def _specs():
     from orquestra.quantum.estimation import _estimation as _est
     # property -> [(python function, lean name, argument types, result type, partial?)]
     return {
-        "C13": [(_itertools._expand_sample_size, "expand_sample_size", [tr.INT, tr.INT], "(List Int) × Int", False)],
+        "C13": [(_itertools._expand_sample_size, "expand_sample_size", [tr.INT, tr.INT], "(List Int) × Int", False),
+                (_itertools.expand_sample_sizes, "expand_sample_sizes", [tr.LOPAQUE, tr.LIST, tr.INT],
+                 "(List α) × (List Int) × (List Int)", False,
+                 {"known": {"_expand_sample_size": ("expand_sample_size", [tr.INT, tr.INT], "(List Int) × Int")}})],
         "C01": [(_unitary_tools._permute, "permute", [tr.LIST, tr.LIST], tr.LIST, False),
                 (_unitary_tools._permutation_making_qubits_adjacent, "permutation_making_qubits_adjacent",
                  [tr.LIST, tr.INT], tr.LIST, False),
